@@ -8,7 +8,8 @@ a jump to the continuation).  Rules that use it see the same calls whether or no
 
 A callee is spliced in when it
   * has a MIR body in the facts, is not derived, belongs to the caller's crate,
-  * is called from at most MAX_CALLERS distinct functions, all of them in the caller's source file ("private helper"),
+  * is called from at most MAX_CALLERS distinct functions, all of them in the caller's source file ("private helper"), or
+    from this function only (an accessor written for it in another module),
   * is not recursive and not on the current splice stack, has at most MAX_BLOCKS blocks,
   * and its name is not matched by `keep` (callees a rule wants to see as calls).
 Depth is bounded (DEPTH).  Cleanup blocks are not copied.  Line numbers of the spliced blocks stay those of the helper.
@@ -51,9 +52,9 @@ def helper_like(F, caller, cname, keep=()):
     callers = {_base(x) for x in _callers(F).get(cname, ())}
     if len(callers) > MAX_CALLERS:
         return False
-    if any(F.fns[x].file != caller.file for x in callers if x in F.fns):
-        return False
-    if cf.file != caller.file:
+    same_file = cf.file == caller.file and all(F.fns[x].file == caller.file for x in callers if x in F.fns)
+    if not same_file and len(callers) > 1:
+        # an accessor of another module is still a private helper when this function is its only user
         return False
     # recursion
     if any(callee(t) == cname for b, t in cf.calls()):
